@@ -31,7 +31,7 @@ def run(m):
             res['status']='testsfail'; res['why']='timeout'; return res
         if t.returncode!=0: res['status']='testsfail'; return res
         try:
-            a=subprocess.run(['/verif/bin/yaccverif','-prop','all','-repo',d,'-verif',v],env=env,capture_output=True,text=True,timeout=300)
+            a=subprocess.run([os.environ.get('YV_BIN','/verif/bin/yaccverif'),'-prop','all','-repo',d,'-verif',v],env=env,capture_output=True,text=True,timeout=300)
         except subprocess.TimeoutExpired:
             res['status']='killed'; res['by']=['analyser-timeout']; return res
         props=sorted(set(re.findall(r'^VIOLATION property=(C\d+)',a.stdout,re.M)))
